@@ -70,6 +70,8 @@ int vp_harness_main(void) {
     vp_ss_append(&s, p, an);
 #elif OP == 17
     vp_ss_ins_stdstring(&s, p, an);
+#elif defined(CHAR8_FORM)
+    vp_ss_ins_u8sv(&s, p, an);
 #else
     vp_ss_ins_sv(&s, p, an);
 #endif
@@ -80,6 +82,8 @@ int vp_harness_main(void) {
     uint8_t usenull = vp_in_u8(); ASSUME(usenull <= 1); if (usenull) ASSUME(an == 0);
 #if OP == 2
     vp_ss_append_auto(&s, usenull ? (uint8_t *)0 : p);
+#elif defined(CHAR8_FORM)
+    vp_ss_ins_c8z(&s, usenull ? (uint8_t *)0 : p);
 #else
     vp_ss_ins_cstr(&s, usenull ? (uint8_t *)0 : p);
 #endif
@@ -140,11 +144,35 @@ int vp_harness_main(void) {
 #if OP == 15
     uint16_t w[3]; uint64_t wn = vp_in_u64(); ASSUME(wn <= 2); for (int i = 0; i < 2; i++) { w[i] = vp_in_u16(); if ((uint64_t)i < wn) ASSUME(w[i] != 0 && !(w[i] >= 0xD800 && w[i] <= 0xDFFF)); }
     uint16_t *p = (uint16_t *)vp_exact((wn + 1) * 2); for (uint64_t i = 0; i < 2; i++) if (i < wn) p[i] = w[i]; p[wn] = 0;
+#ifndef WIDE_FORM
+#define WIDE_FORM 0
+#endif
+#if WIDE_FORM == 0
     vp_ss_ins_u16(&s, p);
+#elif WIDE_FORM == 1
+    vp_ss_ins_u16sv(&s, p, wn);
+#else
+    vp_ss_ins_u16str(&s, p, wn);
+#endif
 #else
     uint32_t w[3]; uint64_t wn = vp_in_u64(); ASSUME(wn <= 2); for (int i = 0; i < 2; i++) { w[i] = vp_in_u32(); if ((uint64_t)i < wn) ASSUME(w[i] != 0 && w[i] <= 0x10FFFF && !(w[i] >= 0xD800 && w[i] <= 0xDFFF)); }
     uint32_t *p = (uint32_t *)vp_exact((wn + 1) * 4); for (uint64_t i = 0; i < 2; i++) if (i < wn) p[i] = w[i]; p[wn] = 0;
+#ifndef WIDE_FORM
+#define WIDE_FORM 0
+#endif
+#if WIDE_FORM == 0
     vp_ss_ins_u32(&s, p);
+#elif WIDE_FORM == 1
+    vp_ss_ins_u32sv(&s, p, wn);
+#elif WIDE_FORM == 2
+    vp_ss_ins_u32str(&s, p, wn);
+#elif WIDE_FORM == 3
+    vp_ss_ins_wc(&s, p);
+#elif WIDE_FORM == 4
+    vp_ss_ins_wsv(&s, p, wn);
+#else
+    vp_ss_ins_wstr(&s, p, wn);
+#endif
 #endif
     for (uint64_t i = 0; i < 2; i++) if (i < wn) { uint32_t v = w[i];
       if (v <= 0x7F) xa[el++] = (uint8_t)v; else if (v <= 0x7FF) { xa[el++] = (uint8_t)(0xC0 + v / 64u); xa[el++] = (uint8_t)(0x80 + v % 64u); }
